@@ -632,6 +632,9 @@ impl PtraceDumper {
         // Zero memory that is below the current stack pointer.
         let offset =
             (sp_offset + std::mem::size_of::<usize>() - 1) & !(std::mem::size_of::<usize>() - 1);
+        // The copy may be shorter than the (aligned) stack pointer offset, e.g. when the stack
+        // was truncated by the minidump size limit: everything is below the stack pointer then.
+        let offset = std::cmp::min(offset, stack_copy.len());
         for x in &mut stack_copy[0..offset] {
             *x = 0;
         }
